@@ -3,6 +3,7 @@ import glob
 import json
 import os
 import re
+import time
 
 from harness import fw, cpp_build, gen_enum
 
@@ -216,7 +217,7 @@ def probes_for_enum(rng, e):
         if n not in seen and re.match(r"[A-Za-z0-9_]*\Z", n):
             seen.add(n)
             outn.append(n)
-    return outn[:60], out[:60]
+    return outn[:40], out[:40]
 
 
 def probes_for_field(rng, md, f):
@@ -378,8 +379,21 @@ def run_modules(ctx, mods):
         runs.append(ModuleRun(i, md, plan))
     # in-process verdicts (status, inferred attributes)
     jobs = []
+    crashed = []
     for r in runs:
-        r.status, r.ir, r.msgs = front_end_status(r.md["text"])
+        try:
+            r.status, r.ir, r.msgs = front_end_status(r.md["text"])
+        except Exception as ex:   # the compiler itself raised: a concrete module without a header
+            import traceback
+            tb = traceback.extract_tb(ex.__traceback__)
+            where = tb[-1].name if tb else "?"
+            ctx.violation("enum-compiler-crash:%s:%s" % (type(ex).__name__, where),
+                          "the compiler raised %r in %s on an enum module" % (ex, where),
+                          dict(kind="enum-module", module=r.md, exception=repr(ex)), found_input=True)
+            ctx.count("module:compiler-crash")
+            crashed.append(r)
+    runs = [r for r in runs if r not in crashed]
+    for r in runs:
         ctx.count("module:" + {0: "accepted", 1: "rejected-front-end", 2: "rejected-back-end"}[r.status])
         for ft in r.md.get("features", []):
             ctx.count("feature:" + ft)
@@ -387,7 +401,14 @@ def run_modules(ctx, mods):
         driver = build_driver(r.md, r.name, r.plan) if r.status == 0 else "int main() { return 0; }\n"
         jobs.append(cpp_build.CppJob(r.name, r.md["text"], driver, cxxflags=["-std=c++14", "-O0", "-w"]))
     wd = os.path.join(ctx.bdir, "cpp")
+    t0 = time.time()
     results = cpp_build.run_jobs(wd, jobs, parallel=fw.NPROC, timeout=300)
+    stage_t = {}
+    for res in results.values():
+        for k, v in res.times.items():
+            stage_t[k] = stage_t.get(k, 0.0) + v
+    fw.log("C19: %d C++ jobs in %.1fs wall (summed stage seconds: %s)"
+           % (len(jobs), time.time() - t0, ", ".join("%s %.0f" % kv for kv in sorted(stage_t.items()))))
 
     enum_cases, field_cases = [], []
     for r in runs:
@@ -494,7 +515,9 @@ def run_modules(ctx, mods):
     # ---- compare with the model ---------------------------------------------------
     runner = fw.CoqCases(ctx, "enums", HEADER, "run_module", "module_out_eqb", "(list enum_in)",
                          "(N * bool * list enum_out)", shard=max(4, (len(enum_cases) + fw.NPROC - 1) // fw.NPROC))
+    t0 = time.time()
     bad = runner.run(enum_cases)
+    fw.log("C19: model evaluation of %d modules in Coq: %.1fs" % (len(enum_cases), time.time() - t0))
     bad_idx = {i for i, _ in bad}
     ctx.obligation("correspondence: %d modules (acceptance, inferred attributes, underlying type, enumerators, "
                    "TryToGetEnumFromName, TryToGetNameFromEnum, EnumIsKnown) agree with the model" % len(enum_cases), not bad)
@@ -620,7 +643,7 @@ def run(ctx):
     fast_embossc_env()
     forb = forbidden_names()
     mods = corpus_modules()
-    n_mod = 400 if ctx.thorough() else 64
+    n_mod = 400 if ctx.thorough() else 48
     for i in range(n_mod):
         m = gen_enum.EnumModule(ctx.rng, forbidden=forb)
         mods.append(module_dict(m))
